@@ -1,9 +1,15 @@
 import PybropsModel.Drv.C01
 import PybropsModel.Drv.C02
+import PybropsModel.Drv.C04
+import PybropsModel.Drv.C07
 import PybropsModel.Drv.C08
+import PybropsModel.Drv.C09
+import PybropsModel.Drv.C10
 import PybropsModel.Drv.C11
 import PybropsModel.Drv.C13
 import PybropsModel.Drv.C14
+import PybropsModel.Drv.C15
+import PybropsModel.Drv.C18
 import PybropsModel.Drv.C19
 import PybropsModel.Drv.C20
 
@@ -11,10 +17,16 @@ namespace Drv
 def allOps : List (String × J.Op) := List.flatten [
   Drv.C01.ops,
   Drv.C02.ops,
+  Drv.C04.ops,
+  Drv.C07.ops,
   Drv.C08.ops,
+  Drv.C09.ops,
+  Drv.C10.ops,
   Drv.C11.ops,
   Drv.C13.ops,
   Drv.C14.ops,
+  Drv.C15.ops,
+  Drv.C18.ops,
   Drv.C19.ops,
   Drv.C20.ops
 ]
